@@ -80,6 +80,9 @@ pub struct Ctx {
     known: Vec<KnownFinding>,
     rule: Mutex<String>,
     machinery_errors: Mutex<Vec<String>>,
+    worker_exe: Mutex<Option<PathBuf>>,
+    /// watchdog state of the worker: (case index or MAX, ms since start of the last heartbeat)
+    hb: std::sync::Arc<(AtomicU64, AtomicU64)>,
 }
 
 thread_local! {
@@ -118,6 +121,12 @@ impl Local<'_> {
     #[inline]
     pub fn nontrivial(&mut self) {
         self.case_nontrivial = true;
+    }
+
+    /// Restart the per-call deadline of an isolated case (call between public API calls).
+    #[inline]
+    pub fn heartbeat(&self) {
+        self.ctx.hb.1.store(self.ctx.start.elapsed().as_millis() as u64, Ordering::Release);
     }
 
     /// Whether the case body should provide a written-out sample.
@@ -274,6 +283,8 @@ impl Ctx {
             known: load_known(id),
             rule: Mutex::new(String::new()),
             machinery_errors: Mutex::new(Vec::new()),
+            worker_exe: Mutex::new(None),
+            hb: std::sync::Arc::new((AtomicU64::new(u64::MAX), AtomicU64::new(0))),
         }
     }
 
@@ -314,6 +325,12 @@ impl Ctx {
     /// (violation counts per class, evaluated cases) — for self-tests.
     pub fn class_summary(&self) -> (BTreeMap<String, u64>, u64) {
         (self.class_counts.lock().unwrap().clone(), self.evals.load(Ordering::Relaxed))
+    }
+
+    /// Use another build of the same checker (e.g. the `vdebug` profile with overflow checks) as worker executable
+    /// for the following isolated universes; `None` = this executable.
+    pub fn set_worker_exe(&self, p: Option<PathBuf>) {
+        *self.worker_exe.lock().unwrap() = p;
     }
 
     pub fn machinery_error(&self, s: String) {
@@ -697,6 +714,16 @@ impl Ctx {
     where
         F: Fn(u64, &mut Local<'_>) + Sync,
     {
+        self.universe_isolated_with(name, total, case_secs, mem_mib, body, |_, class| class.to_owned());
+    }
+
+    /// As [`Ctx::universe_isolated`]; `classify(idx, "abort" | "hang")` runs in the parent and may refine the class of a
+    /// dead or late case from its index (it must not execute the case).
+    pub fn universe_isolated_with<F, C>(&self, name: &str, total: u64, case_secs: f64, mem_mib: u64, body: F, classify: C)
+    where
+        F: Fn(u64, &mut Local<'_>) + Sync,
+        C: Fn(u64, &str) -> String + Sync,
+    {
         use std::io::Write;
         use std::os::unix::fs::FileExt;
 
@@ -706,7 +733,7 @@ impl Ctx {
                 return;
             }
             let file = fs::OpenOptions::new().write(true).create(true).truncate(false).open(pf).ok();
-            let started = std::sync::Arc::new((AtomicU64::new(u64::MAX), AtomicU64::new(0)));
+            let started = self.hb.clone();
             {
                 let started = started.clone();
                 let t0 = self.start;
@@ -789,16 +816,20 @@ impl Ctx {
         }
 
         // ---- parent side
-        let exe = std::env::current_exe().expect("current_exe");
+        let exe = self.worker_exe.lock().unwrap().clone().unwrap_or_else(|| std::env::current_exe().expect("current_exe"));
+        if !exe.exists() {
+            self.machinery_error(format!("worker executable {} missing", exe.display()));
+            return;
+        }
         let next = AtomicU64::new(0);
         let done = AtomicU64::new(0);
         let capped = AtomicBool::new(false);
-        let chunk = (total / (self.threads as u64 * 8)).clamp(1, 20_000);
+        let chunk = (total / (self.threads as u64 * 8)).clamp(1, 24);
         let tmp = verif_root().join("target").join("worker-progress");
         let _ = fs::create_dir_all(&tmp);
         std::thread::scope(|s| {
             for t in 0..self.threads {
-                let (next, done, capped, exe, tmp) = (&next, &done, &capped, &exe, &tmp);
+                let (next, done, capped, exe, tmp, classify) = (&next, &done, &capped, &exe, &tmp, &classify);
                 s.spawn(move || {
                     let pf = tmp.join(format!("{}-{}-{t}.idx", self.id, std::process::id()));
                     loop {
@@ -806,11 +837,12 @@ impl Ctx {
                             capped.store(true, Ordering::Relaxed);
                             break;
                         }
-                        let a = next.fetch_add(chunk, Ordering::Relaxed);
+                        // the simplest cases come first and are where corner values cluster: hand them out in pairs
+                        let a = next.fetch_add(2, Ordering::Relaxed);
+                        let (a, b) = if a < 512 { (a, (a + 2).min(total)) } else { let a2 = next.fetch_add(chunk - 2, Ordering::Relaxed); (a2 - 2, (a2 + chunk - 2).min(total)) };
                         if a >= total {
                             break;
                         }
-                        let b = (a + chunk).min(total);
                         let mut lo = a;
                         while lo < b {
                             let _ = fs::write(&pf, u64::MAX.to_le_bytes());
@@ -882,7 +914,8 @@ impl Ctx {
                             } else {
                                 ("abort", format!("worker process died: {:?} (address-space limit {mem_mib} MiB)", outp.status))
                             };
-                            // describe the case by running the body's sample hook is not possible here; the replay re-executes it
+                            let class = classify(c, class);
+                            let class = class.as_str();
                             self.n_violations.fetch_add(1, Ordering::Relaxed);
                             *self.class_counts.lock().unwrap().entry(class.to_owned()).or_insert(0) += 1;
                             {
@@ -901,6 +934,9 @@ impl Ctx {
                 });
             }
         });
+        if std::env::var_os("VERIF_TRACE").is_some() {
+            eprintln!("TRACE {:.1}s universe {name} done", self.elapsed());
+        }
         self.universes.lock().unwrap().push((
             name.to_owned(),
             UniverseStat { total, done: done.load(Ordering::Relaxed), capped: capped.load(Ordering::Relaxed), note: format!("isolated: worker subprocesses, {case_secs} s per case, {mem_mib} MiB address space") },
